@@ -256,7 +256,8 @@ pub fn render(st: &Stmt) -> (String, BTreeMap<String, String>) {
         parts.push(match c {
             Clause::Cc { h, ty, key, val, bad } => {
                 let t = if *bad { "Spaceship" } else { type_name(*ty) };
-                let k = if *key == 0 { String::new() } else { format!(" SET FIELDS {{key: \"k{key}\"}}") };
+                // (`canonical_id` is a plain text column: given a value so that matcher queries on it have data)
+                let k = if *key == 0 { format!(" SET FIELDS {{canonical_id: \"cid{val}\"}}") } else { format!(" SET FIELDS {{key: \"k{key}\", canonical_id: \"cid{val}\"}}") };
                 format!("CREATE CONCEPT ?h{h} {{ TYPE \"{t}\" NAME \"n{val}\"{k} }}")
             }
             Clause::Up { h, ty, key, val, expect } => {
@@ -273,7 +274,7 @@ pub fn render(st: &Stmt) -> (String, BTreeMap<String, String>) {
             Clause::Cr { kind: 'E', h, pay, refs, bad } => {
                 let class = if *bad { String::new() } else { "evidence_class: \"message\", ".to_string() };
                 let st = refs.first().map(|a| format!(" SET STRUCTURAL {{ (\"generated_by\", {}) }}", r(a, &mut params))).unwrap_or_default();
-                format!("CREATE EVIDENCE ?h{h} {{ SET FIELDS {{{class}payload: \"p{pay}\"}}{st} }}")
+                format!("CREATE EVIDENCE ?h{h} {{ SET FIELDS {{{class}payload: \"p{pay}\", content_digest: \"d{pay}\"}}{st} }}")
             }
             Clause::Cr { kind: 'A', h, pay, refs, bad } => {
                 let p = refs.first().map(|a| r(a, &mut params)).unwrap_or_else(|| "\"P-999\"".into());
